@@ -19,10 +19,10 @@ def run_alphabet(c, alpha, n, pid):
     return replay(c, st, "%s-%s-%d" % (pid, alpha, n))
 
 
-def replay(c, st, name, kind="replay-lex"):
+def replay(c, st, name, sig=False):
     out = os.path.join(vf.WORK, "lex", name + ".json")
     os.makedirs(os.path.dirname(out), exist_ok=True)
-    vf.gv(["replay-lex", st["out"], out])
+    vf.gv(["replay-lex", st["out"], out] + (["sig"] if sig else []))
     r = json.load(open(out))
     c.cov["replayed_cases"] += r["cases"]
     c.cov["traces_validated_against_impl"] += r["behaviours"]
